@@ -2,8 +2,10 @@
 package all
 
 import (
+	_ "verif/worlds/adr"
 	_ "verif/worlds/iso"
 	_ "verif/worlds/join"
+	_ "verif/worlds/plan"
 	_ "verif/worlds/radio"
 	_ "verif/worlds/reg"
 	_ "verif/worlds/smoke"
